@@ -552,6 +552,9 @@ func genWorld(t *rapid.T, maxFiles int, recCombo, http, shadows bool) *World {
 		if rapid.Bool().Draw(t, "literalnoext") {
 			// a file literally named e0f: the reference "e0f" denotes it before any extension is tried
 			cands = append(cands, struct{ tag, ext string }{"e0n", ""})
+		} else if rapid.IntRange(0, 2).Draw(t, "dirnoext") == 0 {
+			// a DIRECTORY named e0f next to e0f.json / e0f.yaml: not a schema, the extensions still have to be tried
+			w.Extra = append(w.Extra, simrt.Node{Path: filepath.Join(w.Root, "e0f"), Kind: "d"}, simrt.Node{Path: filepath.Join(w.Root, "e0f", "README"), Kind: "f", Data: []byte("a directory\n")})
 		}
 		for _, e := range cands {
 			sf := &SFile{Tag: e.tag, Dir: "", Base: "e0f" + e.ext, YAML: e.ext == ".yaml", Defs: []string{"E0Da"}}
